@@ -108,7 +108,9 @@ def check(tier, replay):
     gens["descriptor blocks: one behaviour per block-level transition (a block is chained; a flush with dirty blocks; ndds 4, <= 3 blocks)" + (" (sample)" if quick else "")] = sample(b6, 20000, 6) if quick else b6
     if not quick:
         b7, s7, _ = vlib.tlc_generate(work, "Gen_DDBlocks.tla", "Gen_DDBlocks_cover5.cfg", work.path("g_ddb5.ndjson"), timeout=2400)
-        gens["descriptor blocks of 5 slots (odd size): one behaviour per block-level transition (sample of 60000)"] = load_gen(sample(b7, 60000, 7))      # (sampled before parsing: the cover has ~500,000 behaviours)
+        b7s = sample(b7, 20000, 7)          # (sampled before parsing: the cover has ~500,000 behaviours; memory)
+        del b7
+        gens["descriptor blocks of 5 slots (odd size): one behaviour per block-level transition (sample of 20000)"] = load_gen(b7s)
     gens["ref-space"] = refspace_scenarios()
     behs = []
     for k, v in gens.items():
